@@ -99,5 +99,5 @@ def check_into(v: Any, prop: str, replay_case: Any = None) -> Dict[str, Any]:
     exp = {"recognized": sum(e["class"] == "recognized" for h in hs for e in h), "pending": sum(e["class"] == "pending" for h in hs for e in h),
            "unrecognized_without_context": sum(e["class"] == "unrecognized" and e["ctx"] == [-1] for h in hs for e in h)}
     if replay_case is None and not all(exp.values()):
-        raise tlc.MachineryError(f"vacuity: {exp}")
+        v.vacuous(f"vacuity: {exp}")
     return {"states": res.distinct, **st}
